@@ -301,6 +301,48 @@ class Intervals:
                         hi = self._tree_iv(fn, x[2][1], block)
                         if lo is not None and hi is not None:
                             return meet(ty_range(last["ty"]), (lo[0], hi[1] - 1))
+        if last["k"] == "field" and len([e for e in pl["proj"] if e["k"] != "deref"]) == 1:
+            # field of a tuple / closure environment / struct literal that is built in this function
+            n = pl["local"]
+            for _ in range(5):
+                d2 = fn.whole_defs(n)
+                if len(d2) != 1 or len(fn.defs().get(n, [])) != 1 or d2[0][0] != "stmt":
+                    break
+                rv2 = d2[0][1]
+                if rv2["k"] == "use" and op_place(rv2["op"]) is not None and not op_place(rv2["op"])["proj"]:
+                    n = op_place(rv2["op"])["local"]
+                    continue
+                if rv2["k"] == "aggregate" and rv2["kind"].get("agg") in ("tuple", "closure") and last["idx"] < len(rv2["ops"]):
+                    v = self.operand(fn, rv2["ops"][last["idx"]], d2[0][2], depth + 1, seen)
+                    if v is not None:
+                        return v
+                break
+        if last["k"] == "field" and len(pl["proj"]) == 2 and pl["proj"][0]["k"] == "downcast" and pl["proj"][0]["variant"] in ("Ok", "Some"):
+            # `(r as Ok).0` of a Result that is (a converted copy of) a device position / a local callee's result
+            p = {"local": pl["local"], "proj": []}
+            for _ in range(6):
+                if p is None or p["proj"]:
+                    break
+                d2 = fn.whole_defs(p["local"])
+                if len(d2) != 1:
+                    break
+                k2, pay2 = d2[0][0], d2[0][1]
+                if k2 == "stmt" and pay2["k"] == "use":
+                    p = op_place(pay2["op"])
+                    continue
+                if k2 == "call":
+                    c = callee_of(pay2)
+                    if c.rsplit("::", 1)[-1] in CONVERTERS:
+                        p = op_place(pay2["args"][0])
+                        continue
+                    g = self.prog.fns.get(c)
+                    if g is not None and depth < 8:
+                        v = self.ok_payload_interval(g, depth + 1)
+                        if v is not None:
+                            return meet(ty_range(last["ty"]), v) if ty_range(last["ty"]) else v
+                    if g is None and c.rsplit("::", 1)[-1] in DEVICE_POSITION_CALLS and "Seek" in c:
+                        return (0, (1 << 63) - 1)
+                break
         if last["k"] == "field" and len(pl["proj"]) == 2 and pl["proj"][0]["k"] == "downcast" and pl["proj"][0]["variant"] == "Continue":
             # `(_x as Continue).0` with _x = Try::branch(result of a local call g): the Ok payload of g
             ds = fn.whole_defs(pl["local"])
